@@ -190,6 +190,29 @@ def gen_specs(seed: int, n_random: int) -> list[dict]:
 
 
 # ------------------------------------------------------------------ execution (worker processes)
+def _run_in_subprocess(spec):
+    """fresh interpreter with its own PYTHONHASHSEED (C14)"""
+    import subprocess
+    import tempfile
+    env = dict(os.environ)
+    env["PYTHONHASHSEED"] = str(spec["subprocess_hashseed"])
+    with tempfile.NamedTemporaryFile("w", suffix=".json", dir=os.environ.get("VERIF_SCRATCH", None), delete=False) as f:
+        json.dump({k: v for k, v in spec.items() if k != "subprocess_hashseed"}, f)
+        path = f.name
+    try:
+        p = subprocess.run([sys.executable, "-W", "ignore", "-m", "harness.runner", path], env=env, capture_output=True,
+                           text=True, timeout=180)
+        if p.returncode != 0:
+            return {"name": spec.get("name", ""), "status": "builderror", "info": p.stderr[-1500:], "events": [], "spec": spec}
+        out = json.loads(p.stdout)
+        out["spec"] = spec
+        return out
+    except subprocess.TimeoutExpired:
+        return {"name": spec.get("name", ""), "status": "timeout", "info": "subprocess run exceeded 180 s", "events": [], "spec": spec}
+    finally:
+        os.unlink(path)
+
+
 class _Timeout(BaseException):
     pass
 
@@ -203,6 +226,8 @@ def _run_one(spec):
     import warnings
     warnings.filterwarnings("ignore")
     from .runner import run_spec
+    if spec.get("subprocess_hashseed") is not None:
+        return _run_in_subprocess(spec)
     signal.signal(signal.SIGALRM, _alarm)
     signal.alarm(int(spec.get("timeout_s", 20)))
     try:
